@@ -4,6 +4,7 @@ import Req.Client.DecodeSettings
 import Req.Client.RespHeader
 import Req.Client.Sniff
 import Req.Client.PrefixCode
+import Req.Client.DecodePath
 /-!
 Driver lanes of C15.
 
@@ -26,7 +27,7 @@ the `<tbl>` argument: `in=out;in=out…`, hex, sent by the harness from x/text).
   `,`-joined `<content-type hex>/<ae hex>/<mp>/<lk>` entries (`lk` = a decoder id, or `W:<ok|nil|err>`: WHATWG table of the model, then what ianaindex says); in `prog` a custom function may also be named
   (`G<i>:<k>`, the harness' three fixed functions: suffix `+verif`, even length, contains `charset`).
   Answer: `,`-joined `raw|hdr|auto` (what `autoDecodeResponseBody` installs), one per grid entry.
-* `c15hdrs <mech> <fields> <disable> <filter> <cts> <tbl> <body> <full|wire>` — a response from its header FIELDS in
+* `c15hdrs <mech> <fields> <disable> <filter> <cts> <tbl> <body> <full|wire> [<transport wrappers>,<client wrappers>]` — a response from its header FIELDS in
   wire order: `mech` = `add` (HTTP/3: `Header.Add`) or `slots:<n>` (HTTP/1.1, HTTP/2: `n` pre-allocated
   value slots), `fields` = `;`-joined `<name hex>=<value hex>` (`-` = none), `cts` = what the harness says
   about every Content-Type value in the block (and about `""`): `;`-joined `<ct hex>=<mp>/<lk>`.  The body
@@ -333,9 +334,14 @@ def parseFields (s : String) : Option (List Req.RespHeader.Field) :=
       pure (x, y)
     | _ => none
 
-def laneHdrs : List String → String
-  | [mech, fields, dis, flt, cts, tbl, body, view] =>
+def laneHdrsShape (mech fields dis flt cts tbl body view shape : String) : String :=
     let r : Option String := do
+      let shape ← match shape.splitOn "," with
+        | [a, b] => do
+          let a ← a.toNat?
+          let b ← b.toNat?
+          pure (⟨a, b⟩ : StackShape)
+        | _ => none
       let fields ← parseFields fields
       let hdr ←
         if mech == "add" then some (Req.RespHeader.assemble fields)
@@ -360,12 +366,20 @@ def laneHdrs : List String → String
           | _ => none
         | _ => none
       let (mp, lk) ← cts.lookup ct
-      let src : Src := ⟨if body.isEmpty then [] else [body], .eof, false⟩
-      let rr := respReads ⟨dis, flt⟩ ae ct mp (fun _ => lk) (fun _ => none) src (List.replicate (fuelFor [body] tbl) 4096)
+      let readAll := fun (b : Bytes) =>
+        respReads ⟨dis, flt⟩ ae ct mp (fun _ => lk) (fun _ => none) ⟨if b.isEmpty then [] else [b], .eof, false⟩
+          (List.replicate (fuelFor [b] tbl) 4096)
+      let rr := readAll body
       if view == "full" then pure (showHdr hdr ++ " " ++ showRR rr)
-      else if view == "wire" ∧ rr.term = some .eof then pure (showHdr hdr ++ " " ++ encodeHex rr.out)
+      else if view == "wire" ∧ rr.term = some .eof then
+        -- the body after the whole path through the stack (`runPath`, one body stage)
+        pure (showHdr hdr ++ " " ++ encodeHex (runPath (fun b => (readAll b).out) (pathOf shape) body))
       else none
     r.getD "bad-op"
+
+def laneHdrs : List String → String
+  | [mech, fields, dis, flt, cts, tbl, body, view] => laneHdrsShape mech fields dis flt cts tbl body view "0,0"
+  | [mech, fields, dis, flt, cts, tbl, body, view, shape] => laneHdrsShape mech fields dis flt cts tbl body view shape
   | _ => "bad-op"
 
 def showSel : Sel Bytes → String
